@@ -228,6 +228,17 @@ func runPub(b []byte) string {
 func runFromPoint(q ref.Pt, z *big.Int) string {
 	p := lib.MkPTRep(q, z)
 	raw := lib.Raw(p)
+	// object history: the caller first reuses this Point as the receiver of decodes that FAIL (documented to
+	// leave the receiver unchanged) and only then builds the key from it
+	for _, bad := range [][]byte{append([]byte{2}, ref.B32(big.NewInt(5))...), append([]byte{3}, ref.B32(ref.P)...), {4, 1, 2}, {7},
+		append([]byte{4}, append(ref.B32(ref.Gx), ref.B32(new(big.Int).Add(ref.Gy, big.NewInt(1)))...)...)} {
+		if r, e := p.SetBytes(bad); e == nil || r != nil {
+			return "an invalid encoding was decoded"
+		}
+	}
+	if lib.Raw(p) != raw {
+		return "a failed decode modified its receiver (the point would now be turned into a public key)"
+	}
 	k, err := secec.NewPublicKeyFromPoint(p)
 	if q.Inf {
 		if err == nil || k != nil {
@@ -352,6 +363,14 @@ func main() {
 	}
 	for _, v := range sc {
 		privs = append(privs, ref.B32(v))
+	}
+	for k := uint(0); k < 256; k++ { // limb-structured candidates around n and 2^256
+		p2 := new(big.Int).Lsh(one, k)
+		for _, v := range []*big.Int{new(big.Int).Sub(ref.N, p2), new(big.Int).Sub(new(big.Int).Sub(ref.R256, one), p2), new(big.Int).Add(ref.N, p2)} {
+			if v.Sign() >= 0 && v.BitLen() <= 256 && k%3 == 0 {
+				privs = append(privs, ref.B32(v))
+			}
+		}
 	}
 	for _, b := range privs {
 		v := ref.OS2IP(b)
